@@ -520,7 +520,8 @@ STYLE_OPTS = ["minus-style", "plus-style", "zero-style", "minus-emph-style", "pl
               "line-numbers-minus-style", "line-numbers-plus-style", "line-numbers-zero-style",
               "line-numbers-left-style", "line-numbers-right-style", "file-style", "hunk-header-style",
               "commit-style", "whitespace-error-style", "hunk-header-file-style", "hunk-header-line-number-style"]
-DECOS = ["", "box", "ul", "ol", "box ul", "ul ol", "blue box", "bold yellow ul", "red box ol", "none"]
+DECOS = ["", "box", "ul", "ol", "box ul", "ul ol", "blue box", "bold yellow ul", "red box ol", "none",
+         "bold yellow box ul", "blue box ul", "red 52 box ul ol", "italic 201 ul ol", "omit"]
 
 
 def gen_args(rng, kind):
@@ -642,6 +643,39 @@ def binary_oracle(ctx, rep):
     return blobs
 
 
+DECO_SHAPES = ["box", "ul", "ol", "box ul", "box ol", "ul ol", "box ul ol", "none", "omit", ""]
+DECO_COLOURS = ["bold yellow", "blue", "#aabbcc 52 reverse", "ul italic 201", ""]
+
+
+def decoration_oracle(ctx, rep):
+    """Every decoration shape x commit / file / hunk-header x coloured and attributed decoration styles x unified and
+    side-by-side x fixed and variable width: every line of the drawn box / rule / whisker ends in the default state."""
+    jobs = []
+    for el in ("commit", "file", "hunk-header"):
+        for shape in DECO_SHAPES:
+            for col in DECO_COLOURS:
+                for sbs in (False, True):
+                    for width in ("--width=40", "--width=variable"):
+                        if not ctx.quick() or (DECO_COLOURS.index(col) + DECO_SHAPES.index(shape) + sbs) % 2 == 0 or shape in ("box ul", "box ul ol"):
+                            a = ["--no-gitconfig", "--paging=never", width, "--%s-decoration-style=%s" % (el, (col + " " + shape).strip())]
+                            if el == "commit":
+                                a.append("--commit-style=" + ctx.rng.choice(["bold 214", "raw", "normal"]))
+                            if el == "hunk-header":
+                                a.append("--hunk-header-style=" + ctx.rng.choice(["file line-number syntax", "raw", "bold red"]))
+                            if sbs:
+                                a.append("--side-by-side")
+                            jobs.append((el, shape, col, a))
+    results = parallel_map(lambda j: ctx.run_delta(j[3], c12.DIFF, timeout=20), jobs)
+    for (el, shape, col, a), (rc, out, err) in zip(jobs, results):
+        rep.case(key=("decoration", el, shape, col, tuple(a)), nontrivial=bool(shape and shape not in ("none", "omit")),
+                 sample=dict(op="decoration", element=el, shape=shape, colour=col, rc=rc))
+        rep.count("decoration:%s:%s" % (el, shape or "(empty)"))
+        if rc != 0:
+            rep.count("decoration:rc=%s" % rc)
+        import base64
+        check_stdout(rep, dict(kind="binary", input_kind="diff", args=a, env={}, stdin_b64=base64.b64encode(c12.DIFF).decode()), out)
+
+
 def run(ctx, rep):
     rep.rule = ("hook level: random lists of (style, text) / random lines built from text and escape-sequence items "
                 "(SGR, OSC 8, EL), random fill styles, widths 0-12, five truncation tails, 10 side-by-side configs; "
@@ -659,6 +693,7 @@ def run(ctx, rep):
     o3 = corr_truncate(ctx, rep, mdl, gr)
     corr_pad(ctx, rep, mdl, gr)
     blobs = binary_oracle(ctx, rep)
+    decoration_oracle(ctx, rep)
     corr_term(ctx, rep, mdl, o1 + o2 + o3 + blobs)
 
 
